@@ -18,7 +18,9 @@ RULE = ('cases: histories of 4-45 operations. tour histories (58%): insert_at at
         'on a closed tour: accepted by the code). registry histories (42%): use/free/get_route/use_route/free_route on fleet and '
         'foreign actors, next/next_route with scripted draws (min/max/mid), deep_copy and deep_slice with later operations on '
         'both, on raw Registry and RegistryContext, 1-7 actors in 1-4 groups. non-trivial = distinct history with >= 3 '
-        'state-changing steps.')
+        'state-changing steps. Job arguments of remove and of the index/index_last/job_activities/contains queries are jobs of the tour, '
+        'sub-jobs of a multi job wrapped as a standalone Job::Single (NOT a job of the tour: retrieve_job of its activity is the multi) or '
+        'absent jobs; fleets contain vehicles with several shifts including IDENTICAL ones (distinct actors that look equal).')
 TRUSTED = ['identity of jobs/actors (Arc pointer equality and hash) is modelled as equality of small numbers; the harness maps pointers to numbers',
            'HashSet/HashMap iteration order is not modelled: jobs()/available() are compared as sorted sets, next() as "one member of every non-empty group"',
            'deep-copy independence at the level of Rust memory is checked by the harness (mutate one slot, re-dump all others), not proved: in the functional model it holds by construction (frame theorem)']
@@ -52,6 +54,23 @@ def gen_tour(rng, tier):
     n = rng.range(4, 45 if tier != 'quick' else 32)
     malformed = rng.chance(14, 100)
 
+    subs = [(j, sb) for j in range(nj) for sb in range(jobs[j])]      # sub-jobs of multi jobs wrapped as Job::Single
+
+    def sub_id(j, sb):
+        return nj + subs.index((j, sb))
+
+    def any_job(acts):
+        """a job argument: (a) job of the tour, (b) sub-job of a multi of the tour as standalone Single, (c) anything"""
+        present = sorted(set(a[0] for a in acts if a[0]))
+        r = rng.below(10)
+        if r < 4 and present:
+            return rng.choice(present) - 1
+        multis = [p - 1 for p in present if jobs[p - 1]] or [j for j in range(nj) if jobs[j]]
+        if r < 8 and multis:
+            j = rng.choice(multis)
+            return sub_id(j, rng.below(jobs[j]))
+        return rng.below(nj + len(subs))
+
     def new_act():
         nonlocal tag
         tag += 1
@@ -73,14 +92,16 @@ def gen_tour(rng, tier):
             j, sub, t = new_act()
             ops.append(['last', k, j, sub, t])
             acts.insert(len(acts) - c, [j + 1, t])
-        elif r < 62:
+        elif r < 58:
             present = sorted(set(a[0] for a in acts if a[0]))
-            if present and rng.chance(3, 4):
+            if present and rng.chance(3, 5):
                 j = rng.choice(present) - 1
             else:
-                j = rng.below(nj)
+                j = any_job(acts)
             ops.append(['rm', k, j])
             slots[k] = [a for a in acts if a[0] != j + 1]
+        elif r < 64:
+            ops.append(['q', k, rng.below(4), any_job(acts)])
         elif r < 78 and njobacts > 0:
             idx = _pick_index(rng, 1, njobacts)
             ops.append(['rmat', k, idx])
@@ -130,9 +151,16 @@ def gen_tour(rng, tier):
 
 
 def gen_reg(rng, tier):
-    n = rng.range(1, 7)
     ng = rng.range(1, 4)
-    groups = [rng.below(ng) * 3 for _ in range(n)]       # sparse group keys
+    fleet = []                                            # vehicles: [group key, detail variants]; one actor per detail
+    n = 0
+    target = rng.range(1, 7)
+    while n < target:
+        nd = min(target - n, 1 if rng.chance(1, 2) else rng.range(2, 3))
+        variants = [rng.below(2) for _ in range(nd)]      # equal variants = identical VehicleDetail = two distinct equal-looking actors
+        fleet.append([rng.below(ng) * 3, variants])       # sparse group keys; several vehicles may share a group
+        n += nd
+    groups = [g for g, vs in fleet for _ in vs]
     ctx = rng.chance(1, 2)
     ops = []
     used = [set()]                                       # generator-side guess of what is in use (only steers choices)
@@ -172,7 +200,7 @@ def gen_reg(rng, tier):
             alls.append(set(x for x in alls[k] if x in keep))
         else:
             ops.append(['next', k, 1])
-    return {'kind': 'reg', 'ctx': ctx, 'groups': groups, 'ops': ops, 'expect': 'ok'}
+    return {'kind': 'reg', 'ctx': ctx, 'groups': groups, 'fleet': fleet, 'ops': ops, 'expect': 'ok'}
 
 
 def generate(rng, tier, n):
@@ -206,6 +234,15 @@ def _corpus():
         {'kind': 'reg', 'ctx': True, 'groups': [0, 0, 3], 'expect': 'ok',
          'ops': [['get', 0, 0], ['get', 0, 0], ['next', 0, 1], ['copy', 0], ['free', 1, 0], ['slice', 0, [1, 2]], ['free', 2, 0],
                  ['use', 0, 4], ['next', 0, 1], ['free', 0, 0], ['free', 0, 0], ['get', 2, 1], ['next', 2, 2]]},
+        # a sub-job of a multi job wrapped as Job::Single is not a job of the tour
+        {'kind': 'tour', 'closed': True, 'jobs': [2, 0], 'expect': 'ok',
+         'ops': [['last', 0, 0, 0, 1], ['last', 0, 0, 1, 2], ['last', 0, 1, 0, 3], ['q', 0, 0, 2], ['q', 0, 1, 3], ['q', 0, 2, 2],
+                 ['q', 0, 3, 3], ['rm', 0, 3], ['q', 0, 2, 0], ['q', 0, 1, 0], ['rm', 0, 2], ['rm', 0, 0], ['q', 0, 3, 0]]},
+        # one vehicle with two identical shifts = two distinct actors
+        {'kind': 'reg', 'ctx': False, 'groups': [0, 0, 0], 'fleet': [[0, [0, 0]], [0, [0]]], 'expect': 'ok',
+         'ops': [['next', 0, 1], ['use', 0, 0], ['use', 0, 1], ['free', 0, 0], ['use', 0, 0], ['copy', 0], ['free', 1, 1]]},
+        {'kind': 'reg', 'ctx': True, 'groups': [3, 3, 3, 0], 'fleet': [[3, [1, 1, 1]], [0, [0]]], 'expect': 'ok',
+         'ops': [['get', 0, 1], ['get', 0, 2], ['get', 0, 1], ['next', 0, 0], ['free', 0, 2], ['slice', 0, [0, 2]], ['get', 1, 0], ['get', 1, 2]]},
         {'kind': 'reg', 'ctx': False, 'groups': [0, 0, 0, 6], 'expect': 'ok',
          'ops': [['use', 0, 1], ['use', 0, 1], ['next', 0, 1], ['use', 0, 0], ['next', 0, 1], ['slice', 0, [0, 1, 3]],
                  ['free', 1, 2], ['free', 1, 1], ['free', 0, 1], ['next', 1, 0]]},
@@ -236,6 +273,8 @@ def model_term(c):
                 ts.append('STour %d (TRemove %d)' % (k, o[2]))
             elif n == 'rmat':
                 ts.append('STour %d (TRemoveAt %d)' % (k, o[2]))
+            elif n == 'q':
+                ts.append('SQuery %d %d %d' % (k, o[2], o[3]))
             elif n == 'copy':
                 ts.append('SCopy %d %d' % (k, o[2]))
             elif n == 'state':
@@ -403,6 +442,18 @@ def _oracle_tour(c, impl):
             last[new] = d
             continue
         if prev is not None:
+            if op[0] == 'rm' and s['ret'] == 0 and d['acts'] != prev['acts']:
+                v.append({'class': 'remove-nonmember-changed-tour',
+                          'what': 'step %d %s reported "not in tour" but changed the activities %s -> %s' % (i, op, prev['acts'], d['acts'])})
+            if op[0] == 'q':
+                pos = [n for n, a in enumerate(prev['acts']) if a[0] == op[3] + 1]
+                want = [pos[0] + 1 if pos else 0, pos[-1] + 1 if pos else 0, len(pos), 1 if (op[3] + 1) in prev['jobs'] else 0][op[2]]
+                if s['ret'] != want:
+                    v.append({'class': 'accessor-disagrees-with-activities',
+                              'what': 'step %d %s (0 index,1 index_last,2 job_activities,3 contains) returned %s, activities %s jobs %s'
+                                      % (i, op, s['ret'], prev['acts'], prev['jobs'])})
+                if d != prev:
+                    v.append({'class': 'query-changed-tour', 'what': 'step %d %s changed the tour' % (i, op)})
             if op[0] == 'rm' and s['ret'] != (1 if (op[2] + 1) in prev['jobs'] else 0):
                 v.append({'class': 'remove-result', 'what': 'step %d %s returned %s, jobs before: %s' % (i, op, s['ret'], prev['jobs'])})
             if op[0] == 'rmat' and s['ret'] + 1 != prev['acts'][op[2]][0]:
@@ -496,7 +547,7 @@ def oracle(c, impl):
 def nontrivial_key(c, impl):
     if 'panic' in impl:
         return None
-    changing = [o for o in c['ops'] if o[0] not in ('next', 'state')]
+    changing = [o for o in c['ops'] if o[0] not in ('next', 'state', 'q')]
     if len(changing) < 3 or len(impl['steps']) < 3:
         return None
     return (c['kind'], c.get('closed'), c.get('ctx'), str(c.get('jobs', c.get('groups'))), str(c['ops']))
@@ -509,6 +560,8 @@ def classify(c, impl):
         labs.append('tour:multi-jobs' if any(c['jobs']) else 'tour:single-jobs-only')
     else:
         labs.append('reg:' + ('context' if c['ctx'] else 'raw'))
+        if any(len(set(vs)) < len(vs) for _, vs in c.get('fleet', [])):
+            labs.append('reg:vehicle-with-identical-shifts')
     labs.append('slots=%d' % (1 + sum(1 for o in c['ops'] if o[0] in ('copy', 'slice'))))
     labs.append('len<=%d' % (10 * (1 + len(c['ops']) // 10)))
     if 'panic' not in impl:
